@@ -18,6 +18,27 @@ use vcommon::Chooser;
 pub const EPOCH_NS: u128 = 1_700_000_000 * 1_000_000_000;
 
 static IN_HARNESS: AtomicBool = AtomicBool::new(true);
+
+/// task polls allowed at one virtual instant before the run counts as a livelock (a healthy
+/// run stays below a few hundred; see the probes `max_task_polls_at_one_instant_*`)
+pub const LIVELOCK_POLLS: u64 = 200_000;
+
+thread_local! {
+    static POLLS: std::cell::Cell<(u64, u64, u64)> = const { std::cell::Cell::new((u64::MAX, 0, 0)) };
+}
+
+/// called by the runtime before every task poll: tasks that keep each other runnable without
+/// ever letting virtual time advance would hang the worker for real
+fn poll_tick() {
+    let vt = clock_steering::sim::vt_ns();
+    let (last, n, max) = POLLS.with(|p| p.get());
+    let n = if last == vt { n + 1 } else { 0 };
+    POLLS.with(|p| p.set((vt, n, max.max(n))));
+    if n > LIVELOCK_POLLS {
+        println!("@@LIVELOCK {vt}");
+        std::process::exit(3);
+    }
+}
 static PANICS: Mutex<Vec<(String, String, bool)>> = Mutex::new(Vec::new());
 
 pub fn install_panic_hook() {
@@ -616,6 +637,7 @@ pub fn run_scenario(scn: &Scenario, want_trace: bool) -> ScenarioResult {
         .enable_time()
         .start_paused(true)
         .rng_seed(tokio::runtime::RngSeed::from_bytes(&scn.seed.to_le_bytes()))
+        .on_before_task_poll(|_| poll_tick())
         .build()
         .expect("runtime");
     let _ = crate::logcap::take();
@@ -633,6 +655,8 @@ pub fn run_scenario(scn: &Scenario, want_trace: bool) -> ScenarioResult {
     log.probe("daemon_log_errors", n_err);
     log.probe("daemon_log_warnings", n_warn);
     log.probe("port_state_transitions", log.transitions.len() as u64);
+    let max_polls = POLLS.with(|p| p.get().2);
+    log.probe(if max_polls < 100 { "max_task_polls_at_one_instant_below_100" } else if max_polls < 1000 { "max_task_polls_at_one_instant_below_1000" } else { "max_task_polls_at_one_instant_1000_or_more" }, 1);
     IN_HARNESS.store(true, Ordering::Relaxed);
     for (m, l, h) in PANICS.lock().unwrap().drain(..) {
         if h {
